@@ -99,6 +99,16 @@ def replay(path):
     return 0
 
 
+def unit_test_e2(p, row, header=""):
+    """a plain #[test] that replays one E2 case without any explorer (depends on rt/vrt + the repository's join crate only)"""
+    return (
+        "// Cargo.toml: join = { path = \"/repo/join\" }, vrt = { path = \"/verif/rt/vrt\" }, futures = \"0.3\", tokio = { version = \"1\", features = [\"rt\", \"rt-multi-thread\"] }\n"
+        "#![allow(warnings)]\nuse vrt::*;\nuse join::*;\n%s%s\nfn reference() -> String {\n%s\n}\nfn with_macro() -> String {\n%s\n}\n"
+        "#[test]\nfn replay() {\n    let row: &[i64] = &%s;\n    vrt::set_inp(row);\n    let r = vrt::run1(reference);\n    vrt::set_inp(row);\n    let m = vrt::run1(with_macro);\n    assert_eq!((&r.0, &r.1), (&m.0, &m.1), \"value / event trace of the macro differ from the reference\");\n}\n"
+        % (header, p.pre or "", p.ref, p.mac, json.dumps(list(row)))
+    )
+
+
 def judge_family(rep, fr, progs_meta_key="dsl", what_prefix=""):
     """Turn a FamilyResult into violations + coverage counters."""
     rep.add("programs", fr.programs)
@@ -121,7 +131,8 @@ def judge_family(rep, fr, progs_meta_key="dsl", what_prefix=""):
             "%s%s on input row %s: reference %s / macro %s (%d rows differ)"
             % (what_prefix, p.meta.get("dsl", p.id), mm["row"], json.dumps(mm["ref"])[:300], json.dumps(mm["mac"])[:300], n),
             {"program": p.id, "dsl": p.meta.get("dsl"), "reference": p.meta.get("ref"), "mismatch": mm, "mac_body": p.mac, "ref_body": p.ref, "pre": p.pre,
-             "engine": "E2", "family": fr.name, "extra_header": fr.extra_header, "deps_override": fr.deps_override, "cmp": p.cmp, "row": mm["row"]},
+             "engine": "E2", "family": fr.name, "extra_header": fr.extra_header, "deps_override": fr.deps_override, "cmp": p.cmp, "row": mm["row"],
+             "unit_test": unit_test_e2(p, mm["row"], fr.extra_header)},
         )
 
 
@@ -275,7 +286,8 @@ def judge_classes(rep, fr, want):
             "%s | row %s" % (p.meta["dsl"], mm["row"]),
             "%s on fault row %s: reference %s / macro %s" % (p.meta["dsl"], mm["row"], json.dumps(mm["ref"])[:300], json.dumps(mm["mac"])[:300]),
             {"program": p.id, "dsl": p.meta["dsl"], "reference": p.meta["ref"], "mismatch": mm, "mac_body": p.mac, "ref_body": p.ref, "pre": p.pre,
-             "engine": "E2", "family": fr.name, "extra_header": fr.extra_header, "deps_override": fr.deps_override, "cmp": p.cmp, "row": mm["row"]},
+             "engine": "E2", "family": fr.name, "extra_header": fr.extra_header, "deps_override": fr.deps_override, "cmp": p.cmp, "row": mm["row"],
+             "unit_test": unit_test_e2(p, mm["row"], fr.extra_header)},
         )
     rep.set("mismatches_of_other_class_left_to_sibling_property", other)
 
@@ -365,7 +377,9 @@ def run_threads(rep, tier, setname, what, keep=None):
             "%s | row %s | caller %s" % (p.meta.get("dsl", p.id), v["row"], v["caller"]),
             "%s: %s [%s; fault row %s, caller %s, schedule %s; %d failing schedules]" % (what, v["what"], p.meta.get("dsl", p.id)[:300], v["row"], v["caller"], v["schedule"], n),
             {"program": p.id, "dsl": p.meta.get("dsl"), "reference": p.meta.get("ref"), "execution": v, "mac_body": p.mac, "ref_body": p.ref, "engine": "E3-T",
-             "tprog": {"depths": p.depths, "callers": p.callers, "check_threads": p.check_threads, "names": p.names, "pbound": p.pbound, "maxd": p.maxd}},
+             "tprog": {"depths": p.depths, "callers": p.callers, "check_threads": p.check_threads, "names": p.names, "pbound": p.pbound, "maxd": p.maxd},
+             "unit_test": "// harness crate: #![no_std] extern crate vstd as std; (see vlib/e3t.py HEADER); replays ONE schedule with the scheduler, no explorer\nfn with_macro() -> String {\n%s\n}\n#[test]\nfn replay() {\n    vrt::set_inp(&%s);\n    let ex = vsched::run_one(with_macro, %s, &%s);\n    println!(\"{:?} {:?} deadlock={}\", ex.value, ex.log, ex.deadlock);\n    // expected (reference): value %s\n}\n"
+             % (p.mac, json.dumps(v["row"]), "None" if "None" in v["caller"] else "Some(%s)" % json.dumps(v["caller"].replace('Some("', "").replace('")', "")), json.dumps(v["schedule"]), json.dumps(v.get("reference_value")))},
         )
     for p in progs[:: max(1, len(progs) // 3)][:3]:
         rep.sample({"dsl": p.meta.get("dsl"), "execution": res.results[p.id].get("sample"), "schedules": res.results[p.id]["executions"]})
